@@ -15,7 +15,7 @@ import (
 
 // verifSlotTagStub replaces checkpoint.BisyncSlotTag under the engine (the real
 // one hashes ~100k candidate tags once per process; its slot correctness is C11/C18).
-func verifSlotTagStub(slot uint16) string { return "t" + strconv.Itoa(int(slot)) }
+func verifSlotTagStub(slot uint16) string { return strconv.Itoa(int(slot)) }
 
 func verifBisyncOutput(fake *verifFake, mode config.ReplayMode) *RedisOutput {
 	ro := &RedisOutput{}
